@@ -270,7 +270,7 @@ def analyse(ctx, want_prefix: str):
                     merge_seen += check_paths(ob2, st, sib, paths, r)
     except (Budget, _Unmodelled) as e:
         ob(want_prefix + ".0", f"{Q}: interpretation of the scan body stopped", core.UNDECIDED, core.loc(COMPACT, st.inner), f"{type(e).__name__}: {e}")
-    ctx.floors.append(("resolutions whose scan body was analysed", len(sibs), 25))
+    ctx.floor("resolutions whose scan body was analysed", len(sibs), 25, soft=True)
     if len(sibs) < 25:
         ob(want_prefix + ".0", f"{Q}: scan body analysed for only {len(sibs)} resolutions", core.UNDECIDED, core.loc(COMPACT, st.inner),
            "the sibling model (summarised cell_to_children family) is not available for the others; nothing is claimed for them")
